@@ -889,3 +889,81 @@ def gen_cut_frame_then_reconnect(rng, cuts=(1, 3, 6, 7, 8, 9, 10), tagp="cut"):
                     steps += [st2, tick(5), reply(good_reply(rng, st2), unit=1)]
                 scs.append(scenario(len(scs), steps, tag=f"{tagp}-frame-cut@{cut}-{how}-{while_}-then-reconnect"))
     return scs
+
+
+# ------------------------------------------------------------------ spec -> impl: scripts simulated by TLC
+SIM_CONSTS = {"MaxReadBits": 3, "MaxReadRegs": 2, "MaxWriteCoils": 3, "MaxWriteRegs": 2, "AddrSpace": 8, "TxMod": 4, "Bug": '"none"',
+              "NReq": 3, "MaxCmds": 4, "MaxPeer": 5, "MaxTicks": 8, "MaxAttempts": 3, "Cap": 2, "MaxTO": 2, "RMin": 1, "RMax": 2,
+              "WithAbort": "TRUE", "Moves": 14}
+
+
+def sim_scripts(workdir, mode, num, seed):
+    """behaviours of Client.tla chosen by TLC (-simulate); returns e2 scenarios replaying their environment moves"""
+    import re
+    import subprocess
+    cfg = os.path.join(workdir, f"sim_{mode}.cfg")
+    c = dict(SIM_CONSTS)
+    c["Mode"] = f'"{mode}"'
+    vf.write_cfg(cfg, "SimSpec", c, extra=["ACTION_CONSTRAINT PrintScript"])
+    md = os.path.join(workdir, f"simmd_{mode}")
+    env = dict(os.environ)
+    env["JAVA_TOOL_OPTIONS"] = "-Xss64m -Xmx4g"
+    p = subprocess.run(["tlc", "-workers", "1", "-seed", str(seed), "-simulate", f"num={num}", "-depth", "90", "-metadir", md, "-cleanup",
+                        "-noGenerateSpecTE", "-config", cfg, "Client_Sim.tla"], cwd=vf.SPEC, env=env, stdout=subprocess.PIPE,
+                       stderr=subprocess.STDOUT, text=True, timeout=900)
+    import shutil
+    shutil.rmtree(md, ignore_errors=True)
+    scs = []
+    seen = set()
+    for m in re.finditer(r'<<"SCRIPT", "(.*)">>', p.stdout):
+        raw = bytes(m.group(1), "utf-8").decode("unicode_escape")
+        if raw in seen:
+            continue
+        seen.add(raw)
+        moves = json.loads(raw)
+        steps = []
+        for mv in moves:
+            o = mv["op"]
+            if o == "submit":
+                r = mv["r"]
+                if r == 1:
+                    steps.append(submit(1, 3, 1, 0, 1, (), 1, "future"))
+                elif r == 2:
+                    steps.append(submit(2, 6, 1, 1, 1, [5], 2, "callback"))
+                else:
+                    steps.append(submit(r, 3, 1, 0, 0, (), 1, "future"))
+            elif o == "cmd":
+                steps.append(cmd({"en": "enable", "dis": "disable", "dec": "decode", "shut": "shutdown", "drop": "drop", "abort": "abort"}[mv["t"]]))
+            elif o == "peer":
+                fc = mv.get("fc", 3) or 3
+                good = [3, 2, 0, 7] if fc == 3 else [6, 0, 1, 0, 5]
+                k = mv["kind"]
+                if k == "good":
+                    steps.append(reply(good, unit=1))
+                elif k == "stale":
+                    steps.append(reply(good, unit=1, txrel=-1))
+                elif k == "exc":
+                    steps.append(reply([fc + 128, 2], unit=1))
+                elif k == "malformed":
+                    steps.append(reply([fc, 9, 9], unit=1))
+                elif k == "badproto":
+                    steps.append(peer([0, 0, 0, 1, 0, 2, 1, 3]))
+                elif k == "partial":
+                    steps += [reply(good, unit=1, hold=True), deliver(3)]
+                else:
+                    steps.append(reply([3, 2, 0, 7], unit=1, txrel=1))
+            elif o == "eof":
+                steps.append({"op": "eof"})
+            elif o == "werr":
+                steps.append({"op": "werr", "kind": "BrokenPipe"})
+            elif o == "tick":
+                steps.append(tick(1))
+            elif o == "connector":
+                steps.append(conn(mv["res"]))
+            elif o == "new_conn":
+                steps.append(cmd("new_conn"))
+        scs.append(scenario(len(scs), steps, mode=mode, queue=SIM_CONSTS["Cap"], max_timeouts=SIM_CONSTS["MaxTO"],
+                            retry=(SIM_CONSTS["RMin"], SIM_CONSTS["RMax"]), tag=f"tlc-simulated-{mode}"))
+    if not scs:
+        raise vf.ToolError("TLC simulation printed no script:\n" + p.stdout[-2000:])
+    return scs
